@@ -197,6 +197,13 @@ func symEvalAtom(f string, val map[string]float64) (float64, bool) {
 	if v, ok := val[f]; ok {
 		return v, true
 	}
+	if _, ranks := val["__ranks"]; ranks && strings.HasPrefix(f, "r") && !strings.Contains(f, "(") {
+		// the abstract ranks double as coordinates on an integer grid
+		var r int64
+		if _, err := fmt.Sscanf(f, "r%d", &r); err == nil && rankVar(r) == f {
+			return float64(r), true
+		}
+	}
 	if f == "NaN" {
 		return math.NaN(), true
 	}
@@ -502,6 +509,58 @@ func polyHasNaN(p poly) bool {
 				return true
 			}
 		}
+	}
+	return false
+}
+
+// symRationalEqual decides a == b for polynomials whose atoms include reciprocals: the
+// difference is multiplied by the polynomial under each inv atom (cancelling the atom where it
+// occurs) until none is left; the two are equal as rational functions exactly when what remains
+// is the zero polynomial.
+func symRationalEqual(a, b poly) bool {
+	d := a.add(b, -1)
+	for round := 0; round < 64; round++ {
+		if len(d) == 0 {
+			return true
+		}
+		if len(d) > symMaxTerms*8 {
+			return false
+		}
+		atom := ""
+		for k := range d {
+			for _, f := range strings.Split(k, "*") {
+				if strings.HasPrefix(f, "inv(") {
+					if atom == "" || f < atom {
+						atom = f
+					}
+				}
+			}
+		}
+		if atom == "" {
+			return false
+		}
+		q, ok := symAtoms[atom]
+		if !ok {
+			return false
+		}
+		next := poly{}
+		for k, c := range d {
+			fs := strings.Split(k, "*")
+			idx := -1
+			for i, f := range fs {
+				if f == atom {
+					idx = i
+					break
+				}
+			}
+			if idx >= 0 {
+				rest := append(append([]string{}, fs[:idx]...), fs[idx+1:]...)
+				next = next.add(poly{strings.Join(rest, "*"): new(big.Rat).Set(c)}, 1)
+			} else {
+				next = next.add(symMul(poly{k: new(big.Rat).Set(c)}, q), 1)
+			}
+		}
+		d = next
 	}
 	return false
 }
